@@ -374,6 +374,8 @@ def path_encloses_pt_is_even_odd_enclosure_sampled(c, shape):
     import svgpathtools.path as sp
     k = [1.0, 1.0, 50.0, 0.02][int(abs(c.real('size')) * 10) % 4]
     ctr = k * _small(c.cplx('center'), 10)
+    # enclosure does not depend on where the drawing sits: a third of the samples lie 1e5 / 1e6 sizes from the origin
+    ctr += k * [0, 0, 0, 0, 1e5, 1e6][int(abs(c.real('offset')) * 10) % 6] * cmath.exp(1j * c.real('offset_dir') * 100)
     if shape == 'polygon':
         n = 3 + int(abs(c.real('n')) * 10) % 5
         gaps = [20 + (abs(c.real('a%d' % i)) * 1234.567) % 100 for i in range(n)]
@@ -434,3 +436,140 @@ def path_encloses_pt_is_even_odd_enclosure_sampled(c, shape):
         m = min(ell(p + (i / 400.0) * probe) for i in range(401))
         c.assume(abs(max(ell(p + (i / 400.0) * probe) for i in range(401))) > 0.05 * size and m < -0.05 * size)
     c.ensures('path_encloses_pt==inside', sp.path_encloses_pt(p, opt, path) == (depth(p) > 0))
+
+
+@contract('C05', 'path.Path.T2t', params=[{'joined': j, '_bounded_only': True} for j in (True, False)])
+def path_parameter_coherence_with_arcs_sampled(c, joined):
+    """bounded stand-in (Arc segments are not in the shape family of the deductive C05
+    contracts): paths of 2..5 segments of which at least one is an Arc; T inside, or exactly on a
+    joint.  (k,t)=T2t(T) is in range, point(T) is segment k at t, t2T(k,t) gives T back, and
+    T lies in the interval the arc-length fractions before k give."""
+    import svgpathtools.path as sp
+    n = 2 + int(abs(c.real('n')) * 10) % 4
+    ia = int(abs(c.real('ia')) * 10) % n                     # this one is an arc
+    cur = _small(c.cplx('v0') * 123.456, 10)
+    segs = []
+    for i in range(n):
+        a = cur if joined or i == 0 else _small(c.cplx('s%d' % i) * 123.456, 10)
+        b = a + _small(c.cplx('e%d' % i) * 123.456, 4)
+        c.assume(abs(b - a) > 0.3)
+        kind = 3 if i == ia else int(abs(c.real('k%d' % i)) * 10) % 4
+        if kind == 0:
+            segs.append(sp.Line(a, b))
+        elif kind == 1:
+            segs.append(sp.QuadraticBezier(a, (a + b) / 2 + 0.4j * (b - a), b))
+        elif kind == 2:
+            segs.append(sp.CubicBezier(a, a + (b - a) * (0.3 + 0.3j), b - (b - a) * (0.3 - 0.2j), b))
+        else:
+            r = abs(b - a) * (0.6 + abs(c.real('r%d' % i) * 3.3) % 2)
+            segs.append(sp.Arc(a, complex(r, r * (0.5 + abs(c.real('q%d' % i) * 3.3) % 1)),
+                               [0.0, 30.0, -45.0, 77.0][int(abs(c.real('rot%d' % i)) * 10) % 4], c.bool('fa%d' % i), c.bool('fs%d' % i), b))
+        cur = b
+    path = sp.Path(*segs)
+    lens = [s.length() for s in segs]
+    L = sum(lens)
+    S = [sum(lens[:i]) / L for i in range(n + 1)]
+    if c.bool('on_joint'):
+        j = 1 + int(abs(c.real('j')) * 10) % (n - 1)
+        T = path.t2T(j, 0) if c.bool('as_start_of_next') else path.t2T(j - 1, 1)
+    else:
+        T = abs(c.real('T') * 7.77) % 1
+    k, t = path.T2t(T)
+    c.ensures('index-and-parameter-in-range', 0 <= k < n and 0 <= t <= 1 + 1e-12)
+    c.ensures('point(T)==segment[k].point(t)', abs(path.point(T) - segs[k].point(t)) <= 1e-9 * (1 + L))
+    c.ensures('t2T(k,t)==T', abs(path.t2T(k, t) - T) <= 1e-9)
+    c.ensures('T-lies-in-the-interval-of-segment-k', S[k] - 1e-9 <= T <= S[k + 1] + 1e-9)
+    c.ensures('S(k)+F(k)*t==T', abs(S[k] + (S[k + 1] - S[k]) * t - T) <= 1e-9)
+
+
+def _arc_through(c, tag, p, circular, k):
+    """an arc that passes through p strictly inside its parameter range; returns (arc, parameter at
+    p, unit tangent at p)"""
+    import svgpathtools.path as sp
+    rx = k * (1 + abs(c.real(tag + 'rx') * 3.3) % 2)
+    ry = rx if circular else k * (1 + abs(c.real(tag + 'ry') * 3.3) % 2)
+    rot = 0.0 if circular else [0.0, 30.0, 77.0, -45.0, 90.0][int(abs(c.real(tag + 'rot')) * 10) % 5]
+    w = cmath.exp(1j * math.radians(rot))
+    a = (c.real(tag + 'a') * 100) % 360 - 180
+    ctr = p - w * complex(rx * math.cos(math.radians(a)), ry * math.sin(math.radians(a)))
+    d = (40 + abs(c.real(tag + 'd')) * 100 % 260) * (1 if c.bool(tag + 'sweep') else -1)
+    f = 0.2 + 0.6 * (abs(c.real(tag + 'f') * 3.3) % 1)
+    a0 = a - d * f
+
+    def pt(x):
+        return ctr + w * complex(rx * math.cos(math.radians(x)), ry * math.sin(math.radians(x)))
+    arc = sp.Arc(pt(a0), complex(rx, ry), rot, abs(d) > 180, d > 0, pt(a0 + d))
+    tang = w * complex(-rx * math.sin(math.radians(a)), ry * math.cos(math.radians(a))) * (1 if d > 0 else -1)
+    return arc, f, tang / abs(tang)
+
+
+@contract('C12', 'path.Arc.intersect', params=[{'circular': True, '_bounded_only': True}])
+def arc_arc_transversal_crossing_is_reported_once_sampled(c, circular):
+    """bounded stand-in: two arcs built to pass through a common point strictly inside both, their
+    tangents there 30..150 degrees apart.  Circular arcs only (the circle-circle branch of
+    Arc.intersect).  Elliptical arcs go through bezier_intersections with Arc operands: in a probe
+    of 415 constructed crossings 24 were reported twice and 2 missed, and single calls take
+    minutes, so that branch is neither claimed nor sampled."""
+    k = [1.0, 1.0, 100.0, 0.01][int(abs(c.real('size')) * 10) % 4]
+    p = k * _small(c.cplx('p') * 123.456, 10)
+    A, fa, ta = _arc_through(c, 'A.', p, circular, k)
+    B, fb, tb = _arc_through(c, 'B.', p, circular, k)
+    ang = abs(math.degrees(cmath.phase(tb / ta)))
+    c.assume(30 < ang < 150)
+    c.assume(abs(A.point(fa) - p) <= 1e-9 * k * 20 and abs(B.point(fb) - p) <= 1e-9 * k * 20)
+    near = [(x, y) for (x, y) in A.intersect(B) if abs(x - fa) <= 1e-4 and abs(y - fb) <= 1e-4]
+    c.ensures('the-crossing-is-reported', len(near) >= 1)
+    c.ensures('reported-once', len(near) <= 1)
+
+
+@contract('C11', 'path.Arc.intersect', params=[{'circular': True, '_bounded_only': True}])
+def arc_arc_reported_pairs_are_real_sampled(c, circular):
+    """bounded stand-in: whatever two crossing arcs report has parameters in [0,1] and coinciding
+    points (1e-3 of the size, the tolerance C11 gives for arcs).  A raise is not a reported pair."""
+    k = [1.0, 1.0, 100.0, 0.01][int(abs(c.real('size')) * 10) % 4]
+    p = k * _small(c.cplx('p') * 123.456, 10)
+    A, fa, ta = _arc_through(c, 'A.', p, circular, k)
+    B, fb, tb = _arc_through(c, 'B.', p, circular, k)
+    c.assume(A != B)
+    try:
+        r = list(A.intersect(B))
+    except Exception:
+        c.assume(False)
+    for (x, y) in r:
+        c.ensures('parameters-in-[0,1]', 0 <= x <= 1 and 0 <= y <= 1)
+        c.ensures('points-coincide', abs(A.point(x) - B.point(y)) <= 1e-3 * 6 * k)
+
+
+@contract('C11', 'path.Arc.intersect', params=[{'end': e, '_bounded_only': True} for e in ('start', 'end')])
+def arc_line_crossing_next_to_a_line_end_far_from_the_origin_sampled(c, end):
+    """bounded stand-in: an unrotated elliptical arc (the algebraic branch of Arc.intersect, which
+    maps points back to parameters with Arc.point_to_t / Line.point_to_t) crossed by a line whose
+    end lies 2e-3 .. 1e-2 sizes beyond the crossing, the whole drawing up to 1e6 sizes away from
+    the origin.  Every reported pair, in both operand orders, has coinciding points (1e-3 of the
+    size, C11's tolerance for arcs) - a parameter snapped to the line's end would not."""
+    import svgpathtools.path as sp
+    k = [1.0, 1.0, 50.0, 0.02][int(abs(c.real('size')) * 10) % 4]
+    off = k * [0, 1e3, 1e4, 1e5, 1e6][int(abs(c.real('offset')) * 10) % 5] * cmath.exp(1j * c.real('offset_dir') * 100)
+    ctr = k * _small(c.cplx('center'), 10) + off
+    rx, ry = k * (1 + abs(c.real('rx') * 3.3) % 2), k * (1 + abs(c.real('ry') * 3.3) % 2)
+    a0 = (c.real('a0') * 100) % 360 - 180
+    d = (40 + abs(c.real('d')) * 100 % 280) * (1 if c.bool('sweep') else -1)
+
+    def pt(a):
+        return ctr + complex(rx * math.cos(math.radians(a)), ry * math.sin(math.radians(a)))
+    arc = sp.Arc(pt(a0), complex(rx, ry), 0, abs(d) > 180, d > 0, pt(a0 + d))
+    t = 0.15 + 0.7 * (abs(c.real('t') * 3.3) % 1)
+    a = a0 + d * t
+    p = pt(a)
+    tang = complex(-rx * math.sin(math.radians(a)), ry * math.cos(math.radians(a)))
+    dirn = tang / abs(tang) * cmath.exp(1j * math.radians(50 + 80 * (abs(c.real('ang') * 3.3) % 1)))
+    near = k * (2e-3 + 8e-3 * (abs(c.real('near') * 3.3) % 1))
+    far = k * (0.05 + 0.1 * (abs(c.real('far') * 3.3) % 1))
+    line = sp.Line(p - dirn * near, p + dirn * far) if end == 'start' else sp.Line(p - dirn * far, p + dirn * near)
+    size = max(rx, ry)
+    r1, r2 = list(arc.intersect(line)), list(line.intersect(arc))
+    c.ensures('the-crossing-is-reported', len(r1) >= 1 and len(r2) >= 1)
+    for (t1, t2) in r1:
+        c.ensures('arc.intersect(line):points-coincide', 0 <= t1 <= 1 and 0 <= t2 <= 1 and abs(arc.point(t1) - line.point(t2)) <= 1e-3 * size)
+    for (t2, t1) in r2:
+        c.ensures('line.intersect(arc):points-coincide', 0 <= t1 <= 1 and 0 <= t2 <= 1 and abs(arc.point(t1) - line.point(t2)) <= 1e-3 * size)
